@@ -441,6 +441,8 @@ def wrapper_cpp(lw, driver_path, wrap_fns, stub_fns, ast=None):
             body = '%s;' % call
         elif ret.is_ref():
             body = 'return &(%s);' % call
+        elif not ret.derivs and not ret.is_record():
+            body = 'return (%s)(%s);' % (rets, call)
         else:
             body = 'return %s;' % call
         L.append('extern "C" %s qx_real_%s(%s) { %s }' % (rets, fn, sig or 'void', body))
